@@ -82,7 +82,7 @@ def reference(module, z, ctx, inverse):
 def gen_cases(tier, seed):
     rng = np.random.default_rng(seed + 11)
     cases = []
-    n = 600 if tier == "quick" else 6000
+    n = 600 if tier == "quick" else 40000
     for i in range(n):
         D = int(rng.integers(1, 5))
         ctx = int(rng.choice([0, 0, 2]))
